@@ -8,6 +8,7 @@ import AmVerif.Model.Pipes
 import AmVerif.Model.History
 import AmVerif.Model.Dbg
 import AmVerif.Model.Super
+import AmVerif.Model.RpcConv
 import AmVerif.Model.RpcCodec
 import AmVerif.Model.Time
 namespace Am
@@ -134,6 +135,8 @@ structure DState where
   hcfg : Hist.Cfg := {}
   dbgc : Dbg.Client := { n := 0, exc := 0 }
   dbgf : Dbg.Filters := {}
+  conv : Conv.St := {}
+  convAll : Bool := true
   supc : Super.Cfg := { min := 0, max := 0, warm := 0, errKill := 3 }
   sups : Super.St := {}
   hdb : List Hist.Rec := []
@@ -396,8 +399,32 @@ def stepSuper (d : DState) (toks : List String) : Option (DState × String) :=
   | ["sup", "rempr", r] => go (.remPoolReady (n r))
   | _ => none
 
+/-- RPC mirror protocol commands (C09). -/
+def stepConv (d : DState) (toks : List String) : Option (DState × String) :=
+  let pol : Conv.Policy := if d.convAll then Conv.policyAll else Conv.policyPinned
+  let go := fun (st : Conv.Step) =>
+    let s' := Conv.step pol d.conv st
+    some ({ d with conv := s' },
+      s!"src={s'.src} last={s'.lastPush} mirror={s'.mirror} inflight={s'.inflight.length} needsync={if s'.needSync then 1 else 0}")
+  match toks with
+  | ["conv", "init", p] => some ({ d with conv := {}, convAll := p == "all" }, "ok")
+  | ["conv", "change"] => go .change
+  | ["conv", "produce", k] => go (.produce (if k == "push" then .push else .reply))
+  | ["conv", "deliver", i] => go (.deliver (i.toNat?.getD 0))
+  | ["conv", "delsync", i] => go (.deliverSync (i.toNat?.getD 0))
+  | ["conv", "syncexec"] => go .syncExec
+  | ["conv", "syncapply"] => go .syncApply
+  | ["conv", "syncdrop"] => go .syncDrop
+  | ["conv", "drift"] => go .drift
+  | ["conv", "needsync"] => go .askSync
+  | ["conv", "reconnect"] => go .reconnect
+  | _ => none
+
 def stepLine (d : DState) (line : String) : DState × String :=
   let toks0 := (line.trimAscii.toString.splitOn " ").filter (· != "")
+  match stepConv d toks0 with
+  | some r => r
+  | none =>
   match stepSuper d toks0 with
   | some r => r
   | none =>
